@@ -84,6 +84,16 @@ CHECKS = {
         note=TB + "C19: transparency of the wrapper and the batching of tag/namespace primitives under jax.vmap are runtime behaviour, checked by the correspondence only; save inside cond branches is outside the claim.",
         technique="Lean 4 proof + differential correspondence on generated placements (eager/jit/seed)",
         design="§3 C19"),
+    "C20": dict(
+        text="Lean theorems (any commutative semiring/field; all K, M, T>=1, zeros allowed): the forward recursion's last message and marginal "
+             "equal brute-force summation over all state sequences; the filter is normalised; backward sampling returns a sequence with "
+             "probability joint/marginal. Scalar Kalman update proved to be exact Bayes (completing the square + normaliser). Tie: rational "
+             "HMMs on forward_filter / compute_sequence_log_prob / iterated discrete_hmm vs the exact-rational Lean model and float64 brute "
+             "force; backward_sample law by chi-square; kalman_filter/smoother and iterated linear_gaussian vs conditioning the dense joint "
+             "Gaussian (d_obs != d_state included).",
+        note=TB + "C20: the matrix Kalman recursion and the RTS smoother are NOT proved (partial): they are tied by the numpy float64 dense-Gaussian oracle only; log/exp and float32 rounding are compared with tolerances.",
+        technique="Lean 4 + Mathlib proof (HMM full, Kalman scalar) + differential correspondence with brute-force / dense-Gaussian oracles",
+        design="§3 C20"),
 }
 
 NOT_YET = "check not built yet in this session (planned, see DESIGN.md §3/§6); not claimed"
